@@ -68,7 +68,7 @@ def correspondences(tier, rng):
         _, at = impl(x)
         for i, v in enumerate(at):
             want = x[2][m.reverseMapping[i]]
-            if abs(v - want) > F(1, 2): return "master %d at %r: built value %s, master value %s" % (i, m.locations[i], v, want)
+            if abs(v - want) > F(1, 2) + F(1, 10**9): return "master %d at %r: built value %s, master value %s" % (i, m.locations[i], v, want)
         return None
     def compare(x, impl_ser, model_ser):
         # the implementation computes scalars in floats (supportScalar starts from 1.0): compare numerically; a delta that differs by
